@@ -125,9 +125,15 @@ def extract():
     raw = read("src/value_stream.rs")
     ts = re.search(r"fn\s+temp_sibling[^{]*\{(.*?)\n\}", raw, re.S)
     sm = re.search(r'name\s*\.\s*push\s*\(\s*"([^"]*)"\s*\)', ts.group(1)) if ts else None
-    if not sm:
-        raise ExtractError("temp_sibling: suffix not recognised")
-    return {"steps": steps, "pullResFirst": pull_first, "tempSuffix": sm.group(1),
+    # recognised naming: take the whole file name, push a literal suffix, put it back with
+    # `with_file_name`. Any other derivation (with_extension, set_extension, a fixed name, another
+    # directory …) is the pessimistic fact `false`: distinct destinations may then share a temp file.
+    tb = ts.group(1) if ts else ""
+    appends = bool(sm) and re.search(r"\.\s*file_name\s*\(\s*\)", tb) is not None and \
+        re.search(r"final_path\s*\.\s*with_file_name\s*\(\s*name\s*\)", tb) is not None and \
+        not re.search(r"with_extension|set_extension|set_file_name|temp_dir|\.\s*join\s*\(", tb)
+    suffix = sm.group(1) if sm else ""
+    return {"steps": steps, "pullResFirst": pull_first, "tempSuffix": suffix, "tempAppendsToFileName": bool(appends),
             "dropRemovesUncommitted": drop_removes, "commitClosesBeforeRename": closes_first,
             "commitRemovesOnRenameError": removes_on_err, "writeFileCommitsOnlyOnOk": wf_commit_ok_only,
             "readerEofOnlyAfterLast": reader_ok, "tempCreateTruncates": create_truncates,
@@ -157,6 +163,10 @@ def pullResFirst : Bool := {b(f['pullResFirst'])}
 
 /-- `temp_sibling`: the suffix pushed onto the destination's file name. -/
 def tempSuffix : String := "{f['tempSuffix']}"
+
+/-- … by `file_name()` → `name.push(suffix)` → `final_path.with_file_name(name)`: appended to the whole
+file name, same directory (`tempSibling` of the model). Any other derivation is `false`. -/
+def tempAppendsToFileName : Bool := {b(f['tempAppendsToFileName'])}
 
 /-- `Drop for TempFile` removes the file while `self.file.is_some()`; `commit` sets `self.file = None`
 before `fs::rename`, repoints `self.path` on success and calls `remove_file` on a rename error. -/
